@@ -582,7 +582,11 @@ func (g *G) kindExtras(used map[string]bool) []ent {
 			f = func() *yaml.Node { return g.cmdList(true) }
 		case "plugins":
 			f = func() *yaml.Node { return g.plugins() }
-		case "wait", "waiter", "group":
+		case "group":
+			// (a group's name is a typed string position: string, number, boolean or null - a timestamp
+			// there is a type error, and the documented fallback applies)
+			f = func() *yaml.Node { return g.groupName() }
+		case "wait", "waiter":
 			f = func() *yaml.Node {
 				if g.coin("kindnull", 2) {
 					return Plain(pick(g, "nulltext", nullTexts))
